@@ -218,6 +218,42 @@ def build():
     one(r"nsec3_for_not_exists_no_ce\(\s*&star_name,", nxd, "nsec3 nxdomain: wildcard cover required")
     defs.append(("nsec3_walk_resets_flag", "bool", "true"))
 
+    # ---- insecure-delegation decision (nsec_for_ds / nsec3_for_ds) and the NSEC3 NODATA rules
+    nfd = fn_body(ctx, "nsec_for_ds")
+    got = ["rtype" if b_ else a for a, b_ in types_tested(nfd, "nsec_for_ds")]
+    if got != ["DS", "SOA", "NS", "DNAME", "NS", "SOA"]:
+        raise GenError("nsec_for_ds: type bits tested changed: %r" % got)
+    if len(re.findall(r"if\s+wildcard\.is_some\(\)", nfd)) != 2:
+        raise GenError("nsec_for_ds: wildcard exclusions changed")
+    one(r"if\s+types\.contains\(Rtype::NS\)\s*\{\s*return\s*\(CNsecState::InsecureDelegation,\s*ttl,\s*None\);", nfd, "nsec_for_ds: NS without DS/SOA is an insecure delegation")
+    one(r"if\s+let\s+Some\(wildcard\)\s*=\s*wildcard\s*\{\s*if\s+\*target\s*!=\s*wildcard", nfd, "nsec_for_ds: ENT wildcard rule")
+    if len(re.findall(r"g\.validate_with_node\(node,\s*sig_cache,\s*config\)\.await", nfd)) != 3:
+        raise GenError("nsec_for_ds: every branch must validate the record")
+    n3d = fn_body(ctx, "nsec3_for_ds")
+    got = ["rtype" if b_ else a for a, b_ in types_tested(n3d, "nsec3_for_ds")]
+    if got != ["DS", "SOA", "NS"]:
+        raise GenError("nsec3_for_ds: type bits tested changed: %r" % got)
+    if len(re.findall(r"g\.validate_with_node\(node,\s*sig_cache,\s*config\)\.await", n3d)) != 3:
+        raise GenError("nsec3_for_ds: every branch must validate the record")
+    one(r"if\s+!nsec3\.opt_out\(\)\s*\{", n3d, "nsec3_for_ds: covering record needs Opt-Out")
+    one(r"if\s+!target\.ends_with\(&owner\.parent\(\)\.unwrap_or_else\(Name::root\)\)", n3d, "nsec3_for_ds: zone check")
+    one(r"if\s+first\s*==\s*Label::from_slice\(hash\.to_string\(\)\.as_ref\(\)\)", n3d, "nsec3_for_ds: exact match")
+    one(r"if\s+iterations\s*>\s*config\.nsec3_iter_bogus\s*\{", n3d, "nsec3_for_ds: bogus iteration limit")
+    ccn = fn_body(ctx, "create_child_node")
+    one(r"CNsecState::Nothing\s*=>\s*\(\),\s*\}\s*let\s*\(state,\s*ede,\s*ttl\)\s*=\s*nsec3_for_ds\(", ccn, "create_child_node: NSEC3 only after NSEC found nothing")
+    n3nd = fn_body(src, "nsec3_for_nodata")
+    got = ["rtype" if b_ else a for a, b_ in types_tested(n3nd, "nsec3_for_nodata")]
+    if got != ["rtype", "CNAME", "NS", "SOA", "NS", "SOA"]:
+        raise GenError("nsec3_for_nodata: type bits tested changed: %r" % got)
+    if len(re.findall(r"if\s+nsec3\.opt_out\(\)", fn_body(src, "nsec3_for_not_exists"))) != 1 or len(re.findall(r"if\s+nsec3\.opt_out\(\)", fn_body(src, "nsec3_for_not_exists_no_ce"))) != 1:
+        raise GenError("opt-out tests of the NSEC3 non-existence helpers changed")
+    g3b = fn_body(src, "get_checked_nsec3")
+    one(r"if\s+rrs\.len\(\)\s*!=\s*1\b", g3b, "get_checked_nsec3 single record")
+    one(r"if\s+let\s+ValidationState::Secure\s*=\s*group\.state\(\)\s*\{\s*\}\s*else\s*\{\s*return\s+Ok\(None\);", g3b, "get_checked_nsec3 secure")
+    one(r"if\s+group\.signer_name\(\)\s*!=\s*signer_name\s*\{\s*return\s+Ok\(None\);", g3b, "get_checked_nsec3 signer")
+    one(r"if\s+!supported_nsec3_hash\(nsec3\.hash_algorithm\(\)\)\s*\{\s*return\s+Ok\(None\);", g3b, "get_checked_nsec3 algorithm")
+    defs.append(("ds_decision_checks_ok", "bool", "true"))
+
     # ---- validate_groups / map_maybe_secure
     vg = fn_body(ctx, "validate_groups")
     m = one(r"if\s+let\s+ValidationState::(\w+)\s*=\s*vg\.state\(\)\s*\{\s*return\s+VGResult::Bogus\(vg\.ede\(\)\);", vg, "validate_groups abort state")
